@@ -19,6 +19,8 @@ pub enum Trig {
   DropGuard,
   /// an item (no trigger)
   Next,
+  /// let the executor run until idle (virtual time passes)
+  RunIdle,
 }
 
 #[derive(Clone, Debug, Serialize, Deserialize, PartialEq)]
@@ -28,6 +30,9 @@ pub enum Src {
   ColdSync(usize),
   /// `throw`-like: fails inside subscribe
   ColdErr,
+  /// interval(1ms).finalize(f).take(n): the downstream ends the stream, the
+  /// finalize observer upstream never sees a terminal; only unsubscribe is left
+  IntervalTake(usize),
 }
 
 #[derive(Clone, Debug, Serialize, Deserialize)]
@@ -76,19 +81,21 @@ impl Scenario for C15Des {
     (&["ops/finalize.rs (FinalizeOp, FinalizeOpThreads, FinalizerObserver, FinalizerSubscription)", "Subject/SubjectThreads", "SubscriptionGuard"], &[])
   }
   fn generate(&self, rng: &mut Rng, _tier: Tier) -> Value {
-    let src = match rng.below(6) {
+    let src = match rng.below(7) {
       0 => Src::ColdSync(rng.below(3)),
       1 => Src::ColdErr,
+      2 => Src::IntervalTake(rng.range(1, 2)),
       _ => Src::Hot,
     };
     let mut trigs = Vec::new();
     for _ in 0..rng.range(0, 7) {
-      trigs.push(match rng.weighted(&[3, 2, 2, 2, 1]) {
+      trigs.push(match rng.weighted(&[3, 2, 2, 2, 1, if matches!(src, Src::IntervalTake(_)) { 4 } else { 0 }]) {
         0 => Trig::Next,
         1 => Trig::Complete,
         2 => Trig::Error,
         3 => Trig::Unsub,
-        _ => Trig::DropGuard,
+        4 => Trig::DropGuard,
+        _ => Trig::RunIdle,
       });
     }
     serde_json::to_value(Case { threads_flavour: rng.chance(1, 2), src, tail: rng.below(3), trigs }).unwrap()
@@ -107,8 +114,10 @@ impl Scenario for C15Des {
         Src::Hot => local.clone().box_it(),
         Src::ColdSync(n) => observable::from_iter((0..*n as i64).map(Val::I)).on_error_map(|_| 0).box_it(),
         Src::ColdErr => observable::of_result::<Val, E>(Err(5)).box_it(),
+        Src::IntervalTake(_) => observable::interval(std::time::Duration::from_millis(1), local_sched()).map(|i| Val::I(i as i64)).on_error_map(|_| 0).box_it(),
       };
-      let o = src.finalize(fin.callback());
+      let take_n = if let Src::IntervalTake(n) = case.src { n } else { usize::MAX };
+      let o = src.finalize(fin.callback()).take(take_n);
       let u: BoxSubscription<'static> = match case.tail {
         0 => BoxSubscription::new(o.actual_subscribe(Probe(log.clone()))),
         1 => BoxSubscription::new(o.map(|v| v).actual_subscribe(Probe(log.clone()))),
@@ -129,8 +138,10 @@ impl Scenario for C15Des {
         Src::Hot => shr.clone().box_it(),
         Src::ColdSync(n) => observable::from_iter((0..*n as i64).map(Val::I)).on_error_map(|_| 0).box_it(),
         Src::ColdErr => observable::of_result::<Val, E>(Err(5)).box_it(),
+        Src::IntervalTake(_) => observable::interval(std::time::Duration::from_millis(1), shared_sched()).map(|i| Val::I(i as i64)).on_error_map(|_| 0).box_it(),
       };
-      let o = src.finalize_threads(fin.callback());
+      let take_n = if let Src::IntervalTake(n) = case.src { n } else { usize::MAX };
+      let o = src.finalize_threads(fin.callback()).take(take_n);
       let u: BoxSubscriptionThreads = match case.tail {
         0 => BoxSubscriptionThreads::new(o.actual_subscribe(Probe(log.clone()))),
         1 => BoxSubscriptionThreads::new(o.map(|v| v).actual_subscribe(Probe(log.clone()))),
@@ -147,7 +158,11 @@ impl Scenario for C15Des {
         Box::new(move || u2.borrow().as_ref().map_or(true, |u| u.is_closed())),
       )
     };
-    let mut triggered = !matches!(case.src, Src::Hot);
+    let mut triggered = matches!(case.src, Src::ColdSync(_) | Src::ColdErr);
+    // finalize upstream of take: whether the downstream's completion alone runs the
+    // finalizer is outside the statement's quantifier; only "at most once before,
+    // exactly once after unsubscribe" is judged there
+    let lenient_before_unsub = matches!(case.src, Src::IntervalTake(_));
     let mut violation: Option<Violation> = None;
     let mut trace = format!("subscribe ");
     let mut repeats = 0u64;
@@ -155,6 +170,9 @@ impl Scenario for C15Des {
     let mut check = |triggered: bool, trace: &str, violation: &mut Option<Violation>| {
       let c = fin.count.load(SeqCst);
       let want = triggered as usize;
+      if lenient_before_unsub && !triggered && c <= 1 {
+        return;
+      }
       if c != want && violation.is_none() {
         *violation = Some(Violation {
           rule: if c > want { "c15.more-than-once" } else if triggered { "c15.not-run" } else { "c15.too-early" }.into(),
@@ -179,6 +197,10 @@ impl Scenario for C15Des {
     check(triggered, &trace, &mut violation);
     for t in &case.trigs {
       match t {
+        Trig::RunIdle => {
+          w.quiesce(500, w.now() + 50 * MS);
+          trace.push_str("run-idle ");
+        }
         Trig::Next => {
           n += 1;
           if case.threads_flavour {
